@@ -93,19 +93,17 @@ fn string_invalid<const B: usize>(raw: [u8; B]) {
     assert!(r.is_err(), "invalid UTF-8 is reported as an error, never as a value");
     core::mem::forget(r);
 }
-proof!(c14_string_invalid_menu, 12, {
-    match kani::any::<u8>() % 9 {
-        0 => string_invalid([0xC3u8]),                   // truncated 2-byte sequence
-        1 => string_invalid([b'a', 0xE2, 0x82]),         // truncated 3-byte sequence after ASCII
-        2 => string_invalid([0xF0u8, 0x9F, 0xA6]),       // truncated 4-byte sequence
-        3 => string_invalid([0x80u8]),                   // lone continuation byte
-        4 => string_invalid([0xC0u8, 0x80]),             // overlong encoding
-        5 => string_invalid([0xEDu8, 0xA0, 0x80]),       // surrogate
-        6 => string_invalid([0xFFu8]),                   // never valid
-        7 => string_invalid([b'o', b'k', 0xC3, b'(']),   // bad continuation in the middle
-        _ => string_invalid([0xF4u8, 0x90, 0x80, 0x80]), // above U+10FFFF
-    }
-});
+// one harness per shape: with a solver-chosen shape the paths merge and lengths become
+// symbolic again (the menu version ran out of memory on a lenient decoder)
+proof!(c14_string_invalid_trunc2, 12, { string_invalid([0xC3u8]) });
+proof!(c14_string_invalid_trunc3, 12, { string_invalid([b'a', 0xE2, 0x82]) });
+proof!(c14_string_invalid_trunc4, 12, { string_invalid([0xF0u8, 0x9F, 0xA6]) });
+proof!(c14_string_invalid_lone_cont, 12, { string_invalid([0x80u8]) });
+proof!(c14_string_invalid_overlong, 12, { string_invalid([0xC0u8, 0x80]) });
+proof!(c14_string_invalid_surrogate, 12, { string_invalid([0xEDu8, 0xA0, 0x80]) });
+proof!(c14_string_invalid_ff, 12, { string_invalid([0xFFu8]) });
+proof!(c14_string_invalid_mid, 12, { string_invalid([b'o', b'k', 0xC3, b'(']) });
+proof!(c14_string_invalid_too_big, 12, { string_invalid([0xF4u8, 0x90, 0x80, 0x80]) });
 
 fn bytes_rt<const B: usize>() {
     let raw: [u8; B] = kani::any();
